@@ -41,3 +41,50 @@ Proof.
   - lra.
   - rewrite IH by (simpl in *; lia). lra.
 Qed.
+
+Lemma mapM_ok {A B} (f : A -> res B) (g : A -> B) (l : list A) :
+  (forall a, In a l -> f a = Ok (g a)) -> mapM f l = Ok (map g l).
+Proof.
+  induction l as [|a l IH]; intros Hf; simpl; [reflexivity|].
+  rewrite (Hf a) by (left; reflexivity). cbn [bind]. rewrite IH by (intros; apply Hf; right; assumption). reflexivity.
+Qed.
+
+Lemma vdivs_ok (a : list R) c : c <> 0 -> vdivs a c = Ok (map (fun x => x / c) a).
+Proof.
+  intros Hc. unfold vdivs. apply mapM_ok. intros x _. cbn [fdiv RNum].
+  destruct (Req_EM_T c 0); [contradiction|reflexivity].
+Qed.
+
+Lemma rsum_vmap2_sub (a b c : list R) : length b = length c ->
+  rsum (vmap2 Rmult a (vmap2 Rminus b c)) = rsum (vmap2 Rmult a b) - rsum (vmap2 Rmult a c).
+Proof.
+  revert b c; induction a as [|a0 a IH]; intros b c Hl; [simpl; lra|].
+  destruct b, c; simpl in *; try discriminate; try lra. rewrite IH by lia. lra.
+Qed.
+
+Lemma rsum_div l c : rsum (map (fun x => x / c) l) = rsum l / c.
+Proof. induction l; simpl; [unfold Rdiv; lra|rewrite IHl; unfold Rdiv; lra]. Qed.
+
+Lemma vmap2_map_r (f : R -> R -> R) (g : R -> R) a b : vmap2 f a (map g b) = vmap2 (fun x y => f x (g y)) a b.
+Proof. revert b; induction a; destruct b; simpl; auto. f_equal. apply IHa. Qed.
+Lemma vmap2_map_l (f : R -> R -> R) (g : R -> R) a b : vmap2 f (map g a) b = vmap2 (fun x y => f (g x) y) a b.
+Proof. revert b; induction a; destruct b; simpl; auto. f_equal. apply IHa. Qed.
+Lemma map_vmap2 (g : R -> R) (f : R -> R -> R) a b : map g (vmap2 f a b) = vmap2 (fun x y => g (f x y)) a b.
+Proof. revert b; induction a; destruct b; simpl; auto. f_equal. apply IHa. Qed.
+Lemma vmap2_vmap2_r (f h : R -> R -> R) a b c : length b = length c ->
+  vmap2 f a (vmap2 h b c) = map (fun p => f (fst p) (h (fst (snd p)) (snd (snd p)))) (combine a (combine b c)).
+Proof.
+  revert b c; induction a; intros b c Hl; simpl; [reflexivity|]. destruct b, c; simpl in *; try discriminate; auto.
+  f_equal. apply IHa. lia.
+Qed.
+Lemma vmap2_ext (f g : R -> R -> R) a b : (forall x y, f x y = g x y) -> vmap2 f a b = vmap2 g a b.
+Proof. intros He. revert b; induction a; destruct b; simpl; auto. rewrite He, IHa. reflexivity. Qed.
+Lemma rsum_ext_vmap2 (f g : R -> R -> R) a b : (forall x y, f x y = g x y) -> rsum (vmap2 f a b) = rsum (vmap2 g a b).
+Proof. intros. rewrite (vmap2_ext f g); auto. Qed.
+
+(* get_idx through map *)
+Lemma get_idx_map {A B} (f : A -> B) (l : list A) i a : get_idx l i = Ok a -> get_idx (map f l) i = Ok (f a).
+Proof.
+  unfold get_idx. rewrite map_length. destruct (norm_idx (length l) i) as [k|]; [|discriminate].
+  rewrite nth_error_map. destruct (nth_error l k); simpl; intros H0; inversion H0; reflexivity.
+Qed.
